@@ -14,7 +14,7 @@ from lib import gen, lang as L, refsem, polar_driver as pd, common, snapshot
 
 PROPERTY_ID = "C02"
 RULE = (
-    "programs from profiles discrete (60%), mixed (20%), guarded (10%), edge (10%); options transform_categoricals x cond2arithm (all four); "
+    "programs from profiles discrete (50%), mixed (30%), guarded (10%), edge (10%); options transform_categoricals x cond2arithm (all four); "
     "non-trivial = at least two passes changed the program text and the program has an if, a guard, a repeated assignment, a choice or a draw with "
     "variable parameters; distinct by (program, options)"
 )
@@ -38,7 +38,7 @@ def budget(tier):
 
 @st.composite
 def cases(draw, tier="quick"):
-    profile = draw(st.sampled_from(["discrete"] * 6 + ["mixed"] * 2 + ["guarded", "edge"]))
+    profile = draw(st.sampled_from(["discrete"] * 5 + ["mixed"] * 3 + ["guarded", "edge"]))
     prog, meta = draw(gen.programs(profile, uninit_ok=False, max_body=4))
     opts = draw(st.sampled_from([{}, {}, {"transform_categoricals": True}, {"cond2arithm": True}, {"transform_categoricals": True, "cond2arithm": True}]))
     return {"prog": prog, "opts": opts}
